@@ -87,7 +87,20 @@ func init() {
 		return Iface{T: rv.T, V: v}
 	}
 	intrinsics["(reflect.Value).Type"] = func(in *Interp, fn *ssa.Function, a []Value) Value {
+		if a[0].(RValue).T == nil {
+			panic(goPanic{msg: "reflect: call of reflect.Value.Type on zero Value"})
+		}
 		return in.rtypeOf(a[0].(RValue).T)
+	}
+	intrinsics["(reflect.Value).IsValid"] = func(in *Interp, fn *ssa.Function, a []Value) Value {
+		return mkBool(a[0].(RValue).T != nil)
+	}
+	intrinsics["(reflect.Value).Kind"] = func(in *Interp, fn *ssa.Function, a []Value) Value {
+		rv := a[0].(RValue)
+		if rv.T == nil {
+			return mkBV(64, 0) // reflect.Invalid
+		}
+		return mkBV(64, uint64(kindOf(rv.T)))
 	}
 }
 
@@ -265,6 +278,9 @@ func init() {
 	}
 	intrinsics["(reflect.Value).FieldByIndex"] = func(in *Interp, fn *ssa.Function, a []Value) Value {
 		rv := a[0].(RValue)
+		if rv.T == nil {
+			panic(goPanic{msg: "reflect: call of reflect.Value.FieldByIndex on zero Value"})
+		}
 		for _, iv := range a[1].(Slice).A {
 			i := int(iv.(Term).U)
 			st, ok := rv.T.Underlying().(*types.Struct)
@@ -285,6 +301,9 @@ func init() {
 	}
 	intrinsics["(reflect.Value).IsNil"] = func(in *Interp, fn *ssa.Function, a []Value) Value {
 		rv := a[0].(RValue)
+		if rv.T == nil {
+			panic(goPanic{msg: "reflect: call of reflect.Value.IsNil on zero Value"})
+		}
 		v := rv.V
 		if rv.Ptr != nil {
 			v = *rv.Ptr
